@@ -23,7 +23,7 @@ fn space_for(tier: Tier) -> (Space, usize) {
             s.ast_range("FX", 1, 4, 64, 6).ast_range("FXA", 1, 4, 64, 6);
             s.ast_range("HI", 1, 4, 64, 4).ast_range("K0E", 1, 3, 64, 3).ast_range("K0S", 1, 3, 64, 3).ast_range("SEQO", 1, 5, 64, 4);
             s.ast_range("DUP", 1, 4, 16, 4).ast_range("HIST", 1, 3, 16, 4).ast_range("CLN", 1, 3, 16, 3).ast_range("ANU", 1, 3, 16, 4);
-            s.ast_range("BR3", 1, 5, 64, 4).ast_range("OPTG", 1, 3, 32, 5).ast_range("QNA", 1, 4, 16, 11).ast_range("CLG", 1, 5, 32, 3).ast_range("ALTM", 1, 4, 16, 4);
+            s.ast_range("BR3", 1, 5, 64, 4).ast_range("OPTG", 1, 3, 32, 5).ast_range("QNA", 1, 4, 16, 11).ast_range("CLG", 1, 5, 32, 3).ast_range("ALTM", 1, 4, 16, 4).ast_range("EMPB", 1, 5, 16, 4);
             (s, 3)
         }
         Tier::Thorough => {
@@ -39,7 +39,7 @@ fn space_for(tier: Tier) -> (Space, usize) {
             s.ast_range("FX", 1, 4, 64, 6).ast_range("FXA", 1, 4, 64, 6);
             s.ast_range("HI", 1, 4, 64, 4).ast_range("K0E", 1, 4, 64, 3).ast_range("K0S", 1, 4, 64, 3).ast_range("SEQO", 1, 5, 64, 5);
             s.ast_range("DUP", 1, 4, 16, 4).ast_range("HIST", 1, 3, 16, 4).ast_range("CLN", 1, 4, 16, 4).ast_range("ANU", 1, 4, 16, 4);
-            s.ast_range("BR3", 1, 5, 64, 4).ast_range("OPTG", 1, 5, 32, 4).ast_range("QNA", 1, 4, 16, 12).ast_range("CLG", 1, 5, 32, 4).ast_range("ALTM", 1, 4, 16, 4);
+            s.ast_range("BR3", 1, 5, 64, 4).ast_range("OPTG", 1, 5, 32, 4).ast_range("QNA", 1, 4, 16, 12).ast_range("CLG", 1, 5, 32, 4).ast_range("ALTM", 1, 4, 16, 4).ast_range("EMPB", 1, 5, 16, 4);
             // long inputs on small patterns (cursor arithmetic of the scan loops)
             s.ast_range("KL", 1, 3, 16, 208).ast_range("KL", 4, 4, 32, 206);
             (s, 4)
